@@ -64,3 +64,16 @@ func verifClock() (uint64, bool) {
 func VerifSetFinalizerFunc(f func(obj interface{}, finalizer interface{})) {
 	luagc.VerifSetFinalizerFunc(f)
 }
+
+// VerifHashFunc, when set, supplies the hash of a table key instead of the Go
+// runtime's hash functions, which are seeded at random in every process: a
+// simulator can then choose the seed (and so the collisions inside tables)
+// itself and replay it.  It returns false for values it has no opinion on.
+var VerifHashFunc func(v Value) (uintptr, bool)
+
+func verifHash(v Value) (uintptr, bool) {
+	if f := VerifHashFunc; f != nil {
+		return f(v)
+	}
+	return 0, false
+}
